@@ -171,29 +171,24 @@ func (r *Runtime) newDataView(args []Value, newTarget *Object) *Object {
 	}
 	var byteOffset, byteLen int
 	if len(args) > 1 {
-		offsetArg := nilSafe(args[1])
-		byteOffset = r.toIndex(offsetArg)
-		buffer.ensureNotDetached(true)
-		if byteOffset > len(buffer.data) {
-			panic(r.newErrorf(r.getRangeError(), "Start offset %s is outside the bounds of the buffer", offsetArg.String()))
-		}
+		byteOffset = r.toIndex(nilSafe(args[1]))
+	}
+	buffer.ensureNotDetached(true)
+	// the range checks use the length read before ToIndex(byteLength) runs user code; a detach in there is a TypeError below
+	bufLen := len(buffer.data)
+	if byteOffset > bufLen {
+		panic(r.newErrorf(r.getRangeError(), "Start offset %d is outside the bounds of the buffer", byteOffset))
 	}
 	if len(args) > 2 && args[2] != nil && args[2] != _undefined {
 		byteLen = r.toIndex(args[2])
-		if byteOffset+byteLen > len(buffer.data) {
+		if byteOffset+byteLen > bufLen {
 			panic(r.newErrorf(r.getRangeError(), "Invalid DataView length %d", byteLen))
 		}
 	} else {
-		byteLen = len(buffer.data) - byteOffset
+		byteLen = bufLen - byteOffset
 	}
 	proto := r.getPrototypeFromCtor(newTarget, r.getDataView(), r.getDataViewPrototype())
 	buffer.ensureNotDetached(true)
-	if byteOffset > len(buffer.data) {
-		panic(r.newErrorf(r.getRangeError(), "Start offset %d is outside the bounds of the buffer", byteOffset))
-	}
-	if byteOffset+byteLen > len(buffer.data) {
-		panic(r.newErrorf(r.getRangeError(), "Invalid DataView length %d", byteLen))
-	}
 	o := &Object{runtime: r}
 	b := &dataViewObject{
 		baseObject: baseObject{
